@@ -8,6 +8,9 @@ canonical observations (exception class, declared opsets at model / functions / 
 stamps and adapter-relevant attributes, inputs, initializers) must be equal.
 Oracle (search + findings): an independent opset-consistency/meaning walker, onnx.checker, and
 onnxruntime before/after numerics.
+Round 5: histories (the same object converted 2..4 times: driver `hist`, model `convertHistory`, theorems
+`history_equivalent*`), a pass object reused on a second model vs a fresh call, conversion after optimizer.optimize,
+subgraph owners other than `If`, required opset-boundary counters.
 """
 from __future__ import annotations
 
@@ -121,6 +124,13 @@ def rand_op(rng, s, findings_ok=False):
     return valid_gn(rng, s, findings_ok)
 
 
+def owner(rng):
+    """Operator that owns the subgraphs: mostly `If`; also the other operators with a graph attribute (`body` of
+    Loop / Scan / SequenceMap) and one GRAPHS-typed attribute (`MultiBody`) — the converter descends into every
+    graph-valued attribute of every default-domain node, whatever its operator."""
+    return rng.choice(["If", "If", "If", "Loop", "Scan", "SequenceMap", "MultiBody"])
+
+
 def gen_consistent(rng, s, shape):
     """Self-consistent model at opset s (inputs of the property): versions unset or equal to s."""
     nodes, funcs = [], []
@@ -141,10 +151,10 @@ def gen_consistent(rng, s, shape):
         def body(depth):
             out = [leaf(rand_op(rng, s), v=vers()) for _ in range(rng.choice([1, 2]))]
             if depth > 0 and rng.random() < 0.5:
-                out.insert(rng.randrange(len(out) + 1), node(P("If"), v=vers(), bodies=[body(depth - 1), body(depth - 1)]))
+                out.insert(rng.randrange(len(out) + 1), node(P(owner(rng)), v=vers(), bodies=[body(depth - 1), body(depth - 1)]))
             return out
 
-        nodes = [node(rand_op(rng, s)), node(P("If"), bodies=[body(2), body(2)]), node(rand_op(rng, s))]
+        nodes = [node(rand_op(rng, s)), node(P(owner(rng)), bodies=[body(2), body(2)]), node(rand_op(rng, s))]
         if rng.random() < 0.5:
             # exporter-style names for the body outputs, and a node after the If that an adapter rewrites
             valnames = True
@@ -152,7 +162,7 @@ def gen_consistent(rng, s, shape):
     elif shape == "func":
         fn = [node(rand_op(rng, s)) for _ in range(rng.choice([1, 2]))]
         if rng.random() < 0.3:
-            fn.append(node(P("If"), bodies=[[leaf(rand_op(rng, s))], [leaf(rand_op(rng, s))]]))
+            fn.append(node(P(owner(rng)), bodies=[[leaf(rand_op(rng, s))], [leaf(rand_op(rng, s))]]))
         no_axis_input(fn)
         if rng.random() < 0.5:
             fn.insert(rng.randrange(len(fn) + 1), node(P("Foo"), d=0))  # a domain only the function imports
@@ -220,11 +230,11 @@ def gen_adversarial(rng):
                 out = [leaf(aop(), d=0 if rng.random() < 0.1 else 1, v=vv(), ref=1 if rng.random() < 0.1 else 0)
                        for _ in range(rng.choice([1, 2]))]
                 if depth > 0 and rng.random() < 0.4:
-                    out.append(node(P("If"), v=vv(), ref=1 if rng.random() < 0.05 else 0,
+                    out.append(node(P(owner(rng)), v=vv(), ref=1 if rng.random() < 0.05 else 0,
                                     bodies=[abody(depth - 1), abody(depth - 1)]))
                 return out
 
-            n = node(P("If"), v=vv(), ref=1 if rng.random() < 0.05 else 0, bodies=[abody(2), abody(2)])
+            n = node(P(owner(rng)), v=vv(), ref=1 if rng.random() < 0.05 else 0, bodies=[abody(2), abody(2)])
         return n
 
     nodes = [anode() for _ in range(rng.randint(0, 4))]
@@ -520,6 +530,8 @@ def gn_scale_len_after(n_ir):
                 return None
             if base is None:
                 return None
+            if isinstance(base, tuple):  # a chain on top of a run-time-ratio chain (a node rewritten twice)
+                return ("mul", base, int(np.prod(shp)))
             return base * int(np.prod(shp))
         if v.shape is not None and len(v.shape) == 1 and isinstance(v.shape[0], int):
             return v.shape[0]
@@ -689,9 +701,19 @@ def judge(case, real) -> list[tuple[str, str]]:
                 problems.append((cls, f"GroupNormalization epsilon {eps_b} -> {eps_a}"))
             per_group_before = s <= 20
             slen_after = gn_scale_len_after(n)
-            if isinstance(slen_after, tuple):  # len * (C / len) with the run-time C of x and run-time len of the value
-                base = slen_after[1] if slen_after[1] is not None else op["sLen"]
-                slen_after = base * (op["c"] // base) if base else None
+            def resolve(x):
+                """len * (C / len) with the run-time C of x and the run-time len of the value; chains may be stacked."""
+                if not isinstance(x, tuple):
+                    return x
+                if x[0] == "mul":
+                    b_ = resolve(x[1])
+                    return None if b_ is None else b_ * x[2]
+                b_ = resolve(x[1])
+                b_ = op["sLen"] if b_ is None else b_
+                return b_ * (op["c"] // b_) if b_ else None
+
+            if isinstance(slen_after, tuple):
+                slen_after = resolve(slen_after)
             if slen_after is None:
                 slen_after = op["sLen"]  # scale untouched (graph input): its run-time length is the case's
             want = op["c"] if t >= 21 else op["g"]
@@ -825,8 +847,8 @@ def runnable(case) -> bool:
             return False
         if op["k"] == "DFT" and (op["one"] == 1 and op["inv"] == 1):
             return False
-        if op["k"] == "P" and op["name"] == "If":
-            pass
+        if n.get("bodies") and op["name"] != "If":
+            return False  # Loop / Scan / SequenceMap / MultiBody owners are built for their structure only
     if any(n["d"] == 0 and n["op"]["k"] != "CALL" for n in case["nodes"]):
         return False
     if any(m["d"] == 0 and m["op"]["k"] != "CALL" for m in L.iter_nodes(case["nodes"])):
@@ -973,7 +995,341 @@ def replay_witnesses(run: core.Run, stats: Counter):
             stats[f"witness_{wid}_stale"] += 1
 
 
+# --------------------------------------------------------------------------- histories (the same object converted again)
+
+BOUNDARY = [19, 20, 21]  # a target on either side of the two adapter boundaries 19->20 and 20->21
+
+
+def gen_history_case(rng):
+    """A self-consistent model and a history of 2..4 calls of convert_version on the same object."""
+    kind = rng.choice(["up-up", "up-up", "same", "up-down-up", "err-retry", "down-up", "random", "split-boundaries"])
+    s = rng.choice([18, 19]) if kind == "split-boundaries" else rng.choice([18, 18, 19, 19, 20, 21, 22, 24, 25, 17])
+    shape = rng.choice(["gs", "dft", "gn", "mix", "mix", "sub", "func", "plain"])
+    c = gen_consistent(rng, s, shape)
+    c["extra_inits"] = rng.choice([0, 0, 0, 3])
+    entry = rng.choice(["ir", "ir", "proto", "proto", "native"])
+    if entry == "native":
+        c["extra_inits"] = 0
+    fbs = ["none", "yes", "no"]
+    up = lambda lo: rng.choice([x for x in BOUNDARY + list(range(18, 26)) if x >= lo] or [25])  # noqa: E731
+    if kind == "up-up":
+        t1 = up(s)
+        calls = [(rng.choice(fbs), t1), (rng.choice(fbs), up(t1))]
+    elif kind == "same":
+        t1 = up(s + 1)
+        calls = [(rng.choice(fbs), t1), (rng.choice(fbs), t1)]
+        if rng.random() < 0.5:
+            calls.append((rng.choice(fbs), up(t1)))
+    elif kind == "up-down-up":
+        t1 = up(s + 1)
+        t2 = rng.choice([x for x in range(17, t1)] or [17])
+        calls = [(rng.choice(fbs), t1), (rng.choice(["yes", "yes", "no", "none"]), t2), (rng.choice(fbs), up(t2))]
+    elif kind == "err-retry":
+        calls = [(rng.choice(fbs), rng.choice([26, 17, 27, 16])), (rng.choice(fbs), up(s)), (rng.choice(fbs), rng.choice([26, 25]))]
+    elif kind == "down-up":
+        t1 = rng.choice([x for x in range(17, max(s, 18))] or [17])
+        calls = [("yes", t1), (rng.choice(fbs), up(s))]
+    elif kind == "split-boundaries":
+        # 19->20 (DFT, GridSample) in one call and 20->21 (GroupNormalization) in the next
+        calls = [(rng.choice(fbs), 20), (rng.choice(fbs), rng.choice([21, 21, 23, 25]))]
+    else:
+        calls = [(rng.choice(fbs), rng.choice(list(range(17, 27)))) for _ in range(rng.choice([2, 3, 4]))]
+    if entry == "native":
+        calls = [("none", t) for _fb, t in calls]
+    c.update(entry=entry, fb=calls[0][0], target=calls[0][1], history=[list(x) for x in calls], hist_kind=kind, shape=shape)
+    return c
+
+
+def run_real_history(case: dict):
+    """The calls of `case['history']` on one object.  Returns per-call observations and the final state."""
+    import onnx
+    import onnx_ir as ir
+    from onnxscript import version_converter as vc
+    from onnxscript.version_converter import _version_converter as nvc
+
+    proto = L.build_proto(case)
+    before = onnx.ModelProto()
+    before.CopyFrom(proto)
+    steps, problems = [], []
+    out = {"before_proto": before}
+    if case["entry"] == "proto":
+        pre = ir.from_proto(proto)
+        obj = proto
+    else:
+        pre = obj = ir.from_proto(proto)
+        L.apply_versions(obj, case)
+    out["inputs"] = [v.name for v in pre.graph.inputs]
+    out["inits"] = list(pre.graph.initializers.keys())
+    for fbs, t in case["history"]:
+        fb = {"none": None, "yes": True, "no": False}[fbs]
+        err = "none"
+        snap = obj.SerializeToString(deterministic=True) if case["entry"] == "proto" else None
+        with CapiSpy() as spy:
+            try:
+                if case["entry"] == "native":
+                    nvc.convert_version(obj, t)
+                else:
+                    vc.convert_version(obj, t, fallback=fb)
+            except Exception as ex:  # noqa: BLE001
+                err = err_name(ex)
+        if snap is not None and err != "none" and snap != obj.SerializeToString(deterministic=True):
+            problems.append(f"call convert_version(proto, {t}, fallback={fb}) raised {err} but the ModelProto was modified")
+        obs = obs_proto(obj, err) if case["entry"] == "proto" else L.obs_model(obj, err)
+        steps.append({"obs": obs, "err": err, "capi_called": spy.called, "capi_ok": spy.ok})
+    out["steps"] = steps
+    out["problems"] = problems
+    if case["entry"] == "proto":
+        out["after_proto"] = obj
+    else:
+        out["after_ir"] = obj
+        try:
+            out["after_proto"] = ir.to_proto(obj)
+        except Exception:  # noqa: BLE001
+            out["after_proto"] = None
+    return out
+
+
+def history_line(case: dict, hr: dict) -> str:
+    base = L.case_line(hide_function_shapes(case) if case["entry"] == "native" else case, True, hr["inputs"], hr["inits"]).split(" ")
+    head = ["hist", case["entry"], ",".join(fb for fb, _ in case["history"]), ",".join(str(t) for _, t in case["history"]),
+            ",".join("ok" if (st["capi_ok"] or not st["capi_called"]) else "fail" for st in hr["steps"])]
+    toks = head + base[5:]
+    extra = []
+    for _ in range(case.get("extra_inits", 0)):
+        extra += ["N", "1", "_", "0", "P:Add"]
+    if extra:
+        idx = toks.index("F") if "F" in toks else len(toks)
+        toks[idx:idx] = extra
+    return " ".join(toks)
+
+
+def light_judge(hr) -> list[str]:
+    """What must hold after any history, whatever route the calls took: declared opset = the opset every default-domain
+    node is written for; signature and initializer bytes kept; every used domain imported; names defined once."""
+    import onnx_ir as ir
+
+    problems = []
+    bp, ap = hr["before_proto"], hr["after_proto"]
+    if ap is None:
+        return ["the model cannot be serialised after the history"]
+    after_ir = hr.get("after_ir") or ir.from_proto(ap)
+    decl, after = walk_after(after_ir)
+    if "after_ir" not in hr:
+        after = [(o, decl, tok, n) for (o, _v, tok, n) in after]
+    for o, v, _tok, _n in after:
+        if v != decl:
+            problems.append(f"after the history the model declares {decl} but node {o} is written for {v}")
+            break
+    if [o.name for o in bp.graph.output] != [o.name for o in ap.graph.output]:
+        problems.append("graph outputs changed")
+    if [i.name for i in bp.graph.input] != [i.name for i in ap.graph.input]:
+        problems.append(f"graph inputs changed: {[i.name for i in bp.graph.input]} -> {[i.name for i in ap.graph.input]}")
+    bi = {i.name: i.SerializeToString() for i in bp.graph.initializer}
+    ai_ = {i.name: i.SerializeToString() for i in ap.graph.initializer}
+    if bi != ai_:
+        problems.append(f"initializers changed: {sorted(set(bi) ^ set(ai_))}")
+    und = undeclared_domains(ap)
+    if und:
+        problems.append(f"model uses operator domain(s) {sorted(und)} without an opset import")
+    return problems
+
+
+def check_histories(run, drv, cases, stats: Counter, keep: list | None = None):
+    """History stream: the real API called again and again on one object vs `convertHistory` of the model, call by
+    call; oracle on the final state (`history_equivalent`: it reads as the original at the opset it declares)."""
+    tie, prop = [], []
+    hrs = [run_real_history(c) for c in cases]
+    outs = drv.ask([history_line(c, hr) for c, hr in zip(cases, hrs)])
+    for c, hr, mo in zip(cases, hrs, outs):
+        if mo == "bad-op":
+            raise core.Infra(f"driver rejected a history line for case {json.dumps(c)[:300]}")
+        stats["hist_cases"] += 1
+        stats[f"hist_entry_{c['entry']}"] += 1
+        stats[f"hist_kind_{c['hist_kind']}"] += 1
+        stats["hist_len_2" if len(c["history"]) == 2 else "hist_len_3plus"] += 1
+        msteps = mo.split(" || ")
+        capi_seen = False
+        prev_decl = c["decl"]
+        broke = False
+        for i, (st, ms) in enumerate(zip(hr["steps"], msteps)):
+            branch, mobs = ms.split(" ", 1)
+            branch = branch.split("=")[1]
+            fields = dict(p.split("=", 1) for p in st["obs"].split(" "))
+            decl_now = None if fields["decl"] == "_" else int(fields["decl"])
+            if i >= 1:
+                stats[f"hist_later_call_{branch}"] += 1
+                if capi_seen:
+                    stats["hist_call_after_capi_ok"] += 1
+                if branch.startswith("native") and st["err"] == "none" and decl_now != prev_decl:
+                    stats["hist_later_call_converts_natively"] += 1
+                if st["err"] == "none" and any(x["err"] != "none" for x in hr["steps"][:i]):
+                    stats["hist_success_after_error"] += 1
+                if st["err"] != "none":
+                    stats["hist_later_call_raises"] += 1
+            if not capi_seen and not broke:
+                # the model follows the real object exactly up to (and including) the first successful C-API call
+                robs = st["obs"]
+                if st["capi_called"] != branch.startswith("capi"):
+                    tie.append((c, f"history call {i + 1}: C-API called={st['capi_called']} but model takes branch {branch}"))
+                    broke = True
+                else:
+                    if branch == "capi-ok":
+                        robs = normalise_capi(robs)
+                    robs, mobs = sort_inits(robs), sort_inits(mobs)
+                    if robs != mobs:
+                        tie.append((c, f"history call {i + 1} of {c['history']}:\n   impl  {robs}\n   model {mobs}"))
+                        broke = True
+            if st["capi_called"] and st["capi_ok"]:
+                capi_seen = True
+            prev_decl = decl_now
+        if c["decl"] is not None and c["decl"] <= 19 and prev_decl is not None and prev_decl >= 21 and not capi_seen \
+                and sum(1 for st in hr["steps"] if st["err"] == "none") >= 2 and len({t for _, t in c["history"]} & {20}) == 1:
+            stats["hist_adapter_boundaries_in_separate_calls"] += 1
+        # property verdict
+        if c["entry"] == "native":
+            continue
+        stats["hist_judged"] += 1
+        for w in hr["problems"] + light_judge(hr):
+            prop.append((c, "", f"history {c['history']}: {w}"))
+        if c["entry"] == "proto" and all(st["err"] != "none" for st in hr["steps"]):
+            continue  # every call raised: the proto is byte-for-byte what it was (checked call by call above)
+        if not capi_seen and hr["after_proto"] is not None:
+            final = prev_decl
+            if final != c["decl"] and final not in [t for _, t in c["history"]]:
+                prop.append((c, "", f"history {c['history']}: the model ends declaring {final}, which was never requested"))
+            else:
+                c2 = dict(c, target=final)
+                real2 = dict(hr, obs=hr["steps"][-1]["obs"], err="none", capi_called=False, capi_ok=False)
+                for cls, what in judge(c2, real2):
+                    prop.append((c, cls, f"history {c['history']} (ends at {final}): {what}"))
+                stats["hist_judged_meaning"] += 1
+                if keep is not None and runnable(c) and c["decl"] >= 18 and final is not None and final <= 25 and final != c["decl"] \
+                        and sum(1 for st in hr["steps"] if st["err"] == "none") >= 2:
+                    keep.append((c, hr))
+    return tie, prop
+
+
+def check_pass_reuse(run, stats: Counter, n_pairs: int):
+    """Second use of a pass object: one `ConvertVersionPass(t, fallback)` applied to model A and then to model B must
+    leave B exactly as a fresh `convert_version(B, t, fallback)` does (serialised bytes: nodes, names, imports) and
+    raise the same exception class.  The public function builds a new pass per call; exporters keep pass objects."""
+    import onnx_ir as ir
+    from onnxscript import version_converter as vc
+
+    prop = []
+    for _ in range(n_pairs):
+        sa, sb = run.rng.choice(range(18, 26)), run.rng.choice(range(18, 26))
+        ca = gen_consistent(run.rng, sa, run.rng.choice(["gs", "dft", "gn", "mix", "sub", "func"]))
+        cb = gen_consistent(run.rng, sb, run.rng.choice(["gs", "dft", "gn", "mix", "sub", "func"]))
+        t = run.rng.choice(BOUNDARY + list(range(18, 26)) + [26])
+        fbs = run.rng.choice(["none", "yes", "no"])
+        fb = {"none": None, "yes": True, "no": False}[fbs]
+        for c in (ca, cb):
+            c.update(entry="ir", fb=fbs, target=t)
+
+        def conv(fn, m):
+            try:
+                fn(m)
+                return "none"
+            except Exception as ex:  # noqa: BLE001
+                return err_name(ex)
+
+        fresh = ir.from_proto(L.build_proto(cb))
+        L.apply_versions(fresh, cb)
+        e1 = conv(lambda m: vc.convert_version(m, t, fallback=fb), fresh)
+        pas = vc.ConvertVersionPass(target_version=t, fallback=fb)
+        ma = ir.from_proto(L.build_proto(ca))
+        L.apply_versions(ma, ca)
+        ea = conv(pas, ma)
+        mb = ir.from_proto(L.build_proto(cb))
+        L.apply_versions(mb, cb)
+        e2 = conv(pas, mb)
+        stats["pass_reuse_pairs"] += 1
+        if ea != "none":
+            stats["pass_reuse_after_a_raising_call"] += 1
+        if ea == "none" and e2 == "none" and sa != t and sb != t:
+            stats["pass_reuse_both_convert"] += 1
+        try:
+            b1 = ir.to_proto(fresh).SerializeToString(deterministic=True)
+            b2 = ir.to_proto(mb).SerializeToString(deterministic=True)
+        except Exception:  # noqa: BLE001
+            continue
+        if e1 != e2 or b1 != b2:
+            what = (f"a ConvertVersionPass({t}, fallback={fb}) object that converted another model first "
+                    f"({sa}->{t}: err={ea}) converts this model differently from a fresh call: err {e1} vs {e2}, "
+                    f"serialised models {'equal' if b1 == b2 else 'differ'}; fresh: {L.obs_model(fresh, e1)[:300]} ; reused: {L.obs_model(mb, e2)[:300]}")
+            prop.append((dict(cb, reuse_after=ca), "", what))
+    return prop
+
+
+def check_after_optimize(run, stats: Counter, cases, limit: int):
+    """Convert after optimize: the model first goes through `onnxscript.optimizer.optimize` (constant folding, dead
+    code, node fusion leave a graph the generators never build directly), then through convert_version; oracle only:
+    onnxruntime optimized-vs-converted, declared opset = opset of every default-domain node, signature kept."""
+    import onnx_ir as ir
+    from onnxscript import optimizer
+    from onnxscript import version_converter as vc
+
+    fails = []
+    done = 0
+    for c in cases:
+        if done >= limit:
+            break
+        raw = L.build_proto(c)
+        # give the optimizer something to do: every initializer that is not a graph input is fed through an Identity
+        # (constant-folded away again; the operands of the adapted nodes then come from folded constants)
+        gin = {i.name for i in raw.graph.input}
+        ids = []
+        for t_ in raw.graph.initializer:
+            if t_.name not in gin:
+                ids.append(L.h.make_node("Identity", [t_.name + "_raw"], [t_.name]))
+                t_.name = t_.name + "_raw"
+        for k_, n_ in enumerate(ids):
+            raw.graph.node.insert(k_, n_)
+        n_raw = len(raw.graph.node)
+        m = ir.from_proto(raw)
+        try:
+            optimizer.optimize(m)
+            before = ir.to_proto(m)
+        except Exception:  # noqa: BLE001
+            stats["optimize_refused"] += 1
+            continue
+        fb = {"none": None, "yes": True, "no": False}[c["fb"]]
+        try:
+            if c["entry"] == "proto":
+                after = type(before)()
+                after.CopyFrom(before)
+                vc.convert_version(after, c["target"], fallback=fb)
+                m2 = ir.from_proto(after)
+            else:
+                vc.convert_version(m, c["target"], fallback=fb)
+                m2, after = m, ir.to_proto(m)
+        except Exception as ex:  # noqa: BLE001
+            fails.append((c, f"after optimize: convert_version {c['decl']}->{c['target']} raised {type(ex).__name__}: {str(ex)[:120]}"))
+            continue
+        done += 1
+        stats["after_optimize_cases"] += 1
+        if len(before.graph.node) != n_raw:
+            stats["after_optimize_graph_changed_by_optimizer"] += 1
+        hr = {"before_proto": before, "after_proto": after}
+        if c["entry"] != "proto":
+            hr["after_ir"] = m2
+        for w in light_judge(hr):
+            fails.append((c, f"after optimize: {w}"))
+        d, why = numeric_diff(before, after, seed=done)
+        if d is None and why.startswith("before-fails"):
+            stats["numeric_before_unrunnable"] += 1
+            continue
+        stats["after_optimize_numeric_compared"] += 1
+        if d is None or d > 1e-3:
+            fails.append((c, f"after optimize: onnxruntime optimized/converted: {why or d}"))
+    return fails
+
+
 # --------------------------------------------------------------------------- main
+
+
+CAPI_TABLE: Counter = Counter()
 
 
 def check_cases(run, drv, cases, stats: Counter):
@@ -1020,6 +1376,8 @@ def check_cases(run, drv, cases, stats: Counter):
         stats["fallback_" + ("ok" if r["capi_ok"] else "failed")] += 1
         if any(len(t.dims) and int(np.prod(t.dims)) > 1000 for t in r["before_proto"].graph.initializer):
             stats["fallback_with_stripped_initializer"] += 1
+            if not r["capi_ok"]:
+                stats["fallback_failed_with_stripped_initializer"] += 1
     # metadata stream: `_restore_metadata(original, converted)` on the successful C-API route
     def flat_nodes(g, acc):
         for n in g.node:
@@ -1097,6 +1455,9 @@ def check_cases(run, drv, cases, stats: Counter):
             for a in n.attribute:
                 if a.type == 5:
                     defined_in_order(a.g, acc)
+                elif a.type == 10:
+                    for sg in a.graphs:
+                        defined_in_order(sg, acc)
             acc.extend(x for x in n.output if x)
         return acc
 
@@ -1181,6 +1542,10 @@ def check_cases(run, drv, cases, stats: Counter):
         stats[f"branch_{branch}"] += 1
         stats[f"err_{r['err']}"] += 1
         robs = r["obs"]
+        if r["capi_called"] and not c.get("adversarial"):
+            # which part of the ONNX C-API converter (a contract of the model) the run exercised: operator, from -> to, outcome
+            for kind in sorted({n["op"]["name"] if n["op"]["k"] == "P" else n["op"]["k"] for n in all_case_nodes(c)}):
+                CAPI_TABLE[f"{kind}:{c['decl']}->{c['target']}:{'ok' if r['capi_ok'] else 'raises'}"] += 1
         if r["capi_called"] != branch.startswith("capi"):
             tie.append((c, f"C-API called={r['capi_called']} but model takes branch {branch}"))
             continue
@@ -1189,10 +1554,46 @@ def check_cases(run, drv, cases, stats: Counter):
         robs, mobs = sort_inits(robs), sort_inits(mobs)
         if robs != mobs:
             tie.append((c, f"impl  {robs}\n   model {mobs}"))
+        if not c.get("adversarial") and c["decl"] is not None and 18 <= c["target"] <= 25 and c["entry"] != "native" and branch.startswith("native"):
+            # opset-boundary counters: every adapter boundary with every optional attribute / input / shape fact present and absent
+            s_, t_ = c["decl"], c["target"]
+            if (s_, t_) in ((19, 20), (20, 21)):
+                stats[f"bd_exact_{s_}_{t_}"] += 1
+            if s_ <= 19 and t_ >= 21:
+                stats["bd_span_both"] += 1
+            for n in all_case_nodes(c):
+                o = n["op"]
+                if o["k"] == "DFT" and crosses(s_, t_, 19):
+                    stats[f"bd_DFT_axis{'Y' if o['axis'] is not None else 'N'}_len{o['len']}"] += 1
+                    stats[f"bd_DFT_rank{o['rank']}"] += 1
+                elif o["k"] == "GS" and crosses(s_, t_, 19):
+                    stats[f"bd_GS_mode_{o['mode']}"] += 1
+                elif o["k"] == "GN" and crosses(s_, t_, 20):
+                    stats["bd_GN_eps" + ("N" if o["eps"] is None else "Y")] += 1
+                    if o["g"] == o["c"]:
+                        stats["bd_GN_groups_eq_channels"] += 1
+                    if o["xVis"] == "m":
+                        stats["bd_GN_x_no_shape"] += 1
+                    elif o["xVis"] == "s":
+                        stats["bd_GN_x_symbolic_channels"] += 1
+                    elif o["sVis"] != "k":
+                        stats["bd_GN_scale_not_static"] += 1
+                    elif o["bVis"] != "k":
+                        stats["bd_GN_bias_not_static"] += 1
+                    else:
+                        stats["bd_GN_all_static"] += 1
         for n in all_case_nodes(c):
             stats["op_" + n["op"]["k"]] += 1
             if n["op"]["k"] == "GN" and c["decl"] is not None and crosses(c["decl"], c["target"], 20):
                 stats["gn_step_taken"] += 1
+        for n in L.iter_nodes(c["nodes"] + [m for f in c["funcs"] for m in f["nodes"]]):
+            if n.get("bodies"):
+                stats["subgraph_owner_" + n["op"]["name"]] += 1
+                if n["op"]["name"] != "If" and n["d"] == 1 and c["decl"] is not None and not c.get("adversarial") and any(
+                        creates_values(m["op"], c["decl"], c["target"]) or
+                        (m["op"]["k"] == "GS" and m["op"]["mode"] in ("bilinear", "bicubic") and crosses(c["decl"], c["target"], 19) and 18 <= c["target"] <= 25)
+                        for b_ in n["bodies"] for m in L.iter_nodes(b_) if m["d"] == 1):
+                    stats["non_if_owner_with_rewritten_body"] += 1
         if "{" in mobs:
             stats["with_subgraph"] += 1
             depth = lambda ns: max([0] + [1 + max([depth(b) for b in n["bodies"]]) for n in ns if n.get("bodies")])  # noqa: E731
@@ -1242,6 +1643,10 @@ def main(run: core.Run) -> None:
         "subgraphs of every nesting depth are modelled (the driver is instantiated at depth 4, generators nest up to 3); "
         "call depth 1; GroupNormalization with num_groups = 0 or rank(x) < 2 "
         "(Python ZeroDivisionError / IndexError inside the adapter) is outside the model and not generated",
+        "histories: `history_equivalent(_proto)` cover histories during which the ONNX C API does not succeed; once a C-API call "
+        "succeeded the model no longer follows the object (contract) and only the route-independent oracle (declared opset = node "
+        "versions, signature, initializer bytes, imports) judges the rest of the history; subgraph owners other than `If` are built "
+        "for their structure only (never executed on onnxruntime)",
     ]
     # translator part of the tie: adapter registry and constants, regenerated from the source on every run
     try:
@@ -1261,7 +1666,7 @@ def main(run: core.Run) -> None:
         if c is None:
             print("REPLAY: the replay names a broken obligation, not an input")
             return
-        tie, prop = check_cases(run, drv, [c], stats)
+        tie, prop = (check_histories if c.get("history") else check_cases)(run, drv, [c], stats)
         for _c, d in tie:
             print("REPLAY tie:", d)
         for _c, cls, what in prop:
@@ -1294,7 +1699,10 @@ def main(run: core.Run) -> None:
     # 1. corpus (witness-shaped cases of the findings + minimised past disagreements)
     corpus_file = core.VERIF / "harness" / "corpus_c10.jsonl"
     corpus = [json.loads(l) for l in corpus_file.read_text().splitlines() if l.strip()] if corpus_file.exists() else []
-    batch(corpus)
+    batch([c for c in corpus if not c.get("history")])
+    t_, p_ = check_histories(run, drv, [c for c in corpus if c.get("history")], stats)
+    all_tie.extend(t_)
+    all_prop.extend(p_)
     stats["corpus"] = len(corpus)
     # 2. the grid: every (source, target, entry, fallback) combination on every model shape
     escal = bool(drift) and run.tier == "quick"
@@ -1319,6 +1727,17 @@ def main(run: core.Run) -> None:
     batch(nat)
     # 4. adversarial tie-only cases
     batch([gen_adversarial(run.rng) for _ in range(run.size(700, 12000))])
+
+    # 4b. histories: the same object converted again and again (2..4 calls), call-by-call tie + oracle on the final state
+    hist_keep: list = []
+    hist_cases = [gen_history_case(run.rng) for _ in range(run.size(400, 5000))]
+    for k in range(0, len(hist_cases), 200):
+        t, p = check_histories(run, drv, hist_cases[k:k + 200], stats, hist_keep)
+        all_tie.extend(t)
+        all_prop.extend(p)
+
+    # 4c. second use of a pass object (reuse vs fresh call, byte-exact)
+    all_prop.extend(check_pass_reuse(run, stats, run.size(120, 1500)))
 
     # 5. numerics on a sample of judged, runnable, natively converted cases
     import onnx
@@ -1351,6 +1770,21 @@ def main(run: core.Run) -> None:
                 onnx.checker.check_model(r["after_proto"])
             except Exception as e:  # noqa: BLE001
                 numeric_fail.append((c, f"onnx.checker rejects the converted model: {str(e)[:120]}"))
+    # 5b. numerics through histories: the original model vs the model after two or more successful native calls
+    run.rng.shuffle(hist_keep)
+    for c, hr in hist_keep[: run.size(40, 300)]:
+        d, why = numeric_diff(hr["before_proto"], hr["after_proto"], seed=nnum)
+        nnum += 1
+        if d is None and why.startswith("before-fails"):
+            stats["numeric_before_unrunnable"] += 1
+            continue
+        stats["hist_numeric_compared"] += 1
+        if d is None or d > 1e-3:
+            numeric_fail.append((c, f"history {c['history']}: onnxruntime original/final: {why or d}"))
+    # 5c. convert after optimize (oracle only)
+    opt_pool = [c for c in cases if runnable(c) and 18 <= c["decl"] < c["target"] <= 25 and c["shape"] in ("gs", "dft", "gn", "mix", "sub")]
+    run.rng.shuffle(opt_pool)
+    numeric_fail += check_after_optimize(run, stats, opt_pool, run.size(40, 300))
     # 6. witnesses of the listed findings, on the real code
     replay_witnesses(run, stats)
     metadata_witness(run, stats)
@@ -1398,12 +1832,30 @@ def main(run: core.Run) -> None:
               "err_ValueError", "with_subgraph", "with_functions", "op_GN", "op_DFT", "op_GS",
               "subgraph_nesting_depth_2", "subgraph_nesting_depth_3", "function_with_private_domain",
               "val_named_body_outputs_then_rewrite", "capi_ok_big_initializer_also_input",
-              "fallback_ok", "fallback_failed", "fallback_with_stripped_initializer",
+              "fallback_ok", "fallback_failed", "fallback_with_stripped_initializer", "fallback_failed_with_stripped_initializer",
               "names_cases_with_new_values", "names_cases_with_val_names_in_source",
-              "imports_cases", "imports_cases_private_domain_via_function", "metadata_cases_with_restored_node"]
+              "imports_cases", "imports_cases_private_domain_via_function", "metadata_cases_with_restored_node",
+              "subgraph_owner_If", "subgraph_owner_Loop", "subgraph_owner_Scan", "subgraph_owner_SequenceMap",
+              "subgraph_owner_MultiBody", "non_if_owner_with_rewritten_body",
+              "bd_exact_19_20", "bd_exact_20_21", "bd_span_both", "bd_DFT_axisY_len0", "bd_DFT_axisY_len1", "bd_DFT_axisN_len0",
+              "bd_DFT_axisN_len1", "bd_DFT_rank3", "bd_DFT_rank4", "bd_GS_mode_None", "bd_GS_mode_bilinear", "bd_GS_mode_bicubic",
+              "bd_GS_mode_nearest", "bd_GN_epsN", "bd_GN_epsY", "bd_GN_groups_eq_channels", "bd_GN_x_no_shape",
+              "bd_GN_x_symbolic_channels", "bd_GN_scale_not_static", "bd_GN_bias_not_static", "bd_GN_all_static",
+              "pass_reuse_both_convert", "pass_reuse_after_a_raising_call", "after_optimize_numeric_compared",
+              "after_optimize_graph_changed_by_optimizer",
+              "hist_entry_ir", "hist_entry_proto", "hist_entry_native", "hist_len_3plus", "hist_later_call_early-exit",
+              "hist_later_call_converts_natively", "hist_later_call_raises", "hist_success_after_error",
+              "hist_call_after_capi_ok", "hist_adapter_boundaries_in_separate_calls", "hist_judged_meaning",
+              "hist_numeric_compared"]
     missing = [k for k in needed if stats[k] == 0]
     if missing and not run.violations:  # a behavioural difference is reported as such, never as exit 2
         raise core.Infra(f"generator degenerated: never produced {missing}")
+    run.coverage["capi_contract_exercised"] = {
+        "note": "ONNX C-API converter = contract parameter of the model (raises | returns a model declaring the target with the "
+                "inputs it was given); rows: operator kind present in the model : source->target : outcome observed, count",
+        "rows": dict(sorted(CAPI_TABLE.items())),
+        "distinct_from_to_pairs": len({k.split(":")[1] for k in CAPI_TABLE}),
+    }
     run.coverage.update(
         evaluations=stats["cases"],
         distinct_nontrivial=stats["cases"] - stats["branch_early-exit"],
